@@ -520,6 +520,16 @@ func (e *Engine) runUnit(f *fx, c *Contract) {
 			f.oblige("exsures", fmt.Sprintf("exsures%s@panic#%d", clauseName(ex, k), i), g, ex.Props, ex.Where+" / "+where, ex.Src)
 		}
 	}
+	// every call-site clause must have applied to some call: a clause that matches nothing checks nothing
+	if c != nil {
+		for _, cs := range c.CallSites {
+			if cs.Clause == nil || f.matchedSites[cs] {
+				continue
+			}
+			f.curReach = tTrue
+			f.oblige("callsite-count", fmt.Sprintf("callsite-unmatched:%s#%d%s", cs.Callee, cs.Which, clauseName(cs.Clause, 0)), tFalse, cs.Clause.Props, cs.Where, "this call-site clause applied to no call of "+cs.Callee+" in the function")
+		}
+	}
 	// static call-site counts
 	if c != nil {
 		for _, cs := range c.CallSites {
